@@ -12,6 +12,9 @@ CHECKS = {
  "C07": dict(cat="proof", tech="Coq proof (memory laws on the association-list memory, per-operation context isolation by case analysis over all 89 operations, call-frame invariant by mutual induction on fuel) + model/implementation correspondence on memory of every context",
    text="Coq theorems: zero-initialised reads, read-after-write, writes leave every other (context,address) alone, element store changes element 0 only, no operation writes outside the current context, addresses >= 2^32 fail for single- and two-word accesses with the state unchanged; after any completed call/dyncall/syscall the caller's context id, fn hash, fmp, overflow addresses, hidden outer overflow and all stack elements below the top 16 are as before and the callee returned <= 16 elements; more than 16 on return fails; the callee starts with exactly the top 16, an empty overflow, ctx = clk+1, fmp = 2^30 (ctx 0, fmp 2^31 and the root memory for syscall); syscall outside the kernel fails before anything runs; caller yields fn_hash only inside a syscall. The model is compared with the real processor on generated nests of call/syscall/dyn/dyncall with colliding memory traffic (final stack, error, memory of every context).",
    note="Trusted: Coq kernel; hand-written state/memory/context model (coq/Vm/State.v, Step.v, Exec.v) tied to processor/src by the sampled correspondence; locals disjointness of live frames has no theorem (exercised only). No axioms."),
+ "C13": dict(cat="proof", tech="Coq proof (batching invariant, NOOP-erasure lemma, nesting by mutual induction on fuel over the logging interpreter) + trace/stream correspondence",
+   text="The interpreter model records the operation of every trace row. Coq theorems: the batches of a span hold exactly the span's operations in order (c13_batching_keeps_ops), executing a batch adds nothing but NOOPs (c13_batch_adds_only_noops), a span is recorded as SPAN, batches separated by RESPAN, END (c13_span_shape), and in every successful execution block starts and ENDs are properly nested with depth 0 at the end (c13_nested). The recorded stream of the model is compared row by row with the op-bit columns of the real trace for spans of every push/non-push pattern up to a bound (exhaustive), multi-batch spans and generated MAST programs; group counter, last-row hash and HALT padding are checked on the real trace by rule.",
+   note="Trusted: Coq kernel; hand-written interpreter/batching model tied to processor/src/lib.rs and decoder/mod.rs by the sampled stream correspondence; group counter, op index and block address columns are not modelled in Coq (checked by rule on the real trace). No axioms."),
  "C15": dict(cat="proof", tech="Coq proof (induction on fuel over the mutual interpreter, limit-parametric invariant) + model/implementation correspondence",
    text="Coq theorems c15_exact (same result under every limit >= the cycle count, CycleLimit after exactly m+1 clock increments below it), c15_total (no fuel exhaustion: every program stops within the limit) and c15_options over the interpreter model coq/Vm/Exec.v, proved for all programs, inputs and limits; the model is tied to processor/src by running the extracted model and the real processor on the same generated programs and limits.",
    note="Trusted: Coq kernel, extraction (ExtrOcamlBasic+ExtrOcamlZBigInt+ExtrOcamlNativeString), the exec correspondence (sampled), hand-written model of execute_code_block/advance_clock/ExecutionOptions::new. No axioms."),
